@@ -61,7 +61,7 @@ def main(argv):
     json.dump(rec, open(os.path.join(VERIF, rel), 'w'), sort_keys=True)
     kf = os.path.join(VERIF, 'known_findings.json')
     k = json.load(open(kf))
-    k['findings'] = [e for e in k['findings'] if not (e['property'] == prop and e['fingerprint'] == fp and e['status'] == 'fixed')]
+    k['findings'] = [e for e in k['findings'] if e.get('replay') != rel]
     k['findings'].append({'property': prop, 'fingerprint': fp, 'status': 'fixed', 'commit': fixc,
                           'what': f'fixed: property={prop} {fixc} {what}', 'replay': rel})
     json.dump(k, open(kf, 'w'), indent=1)
